@@ -18,8 +18,11 @@ open SnowModel.RandRange (Mk Out values)
 /-! ### vocabulary -/
 
 /-- Naming discipline of one traced call relative to the nickname map `nm`
-    (`nickname_to_tablename`): a table name is not a nickname, and a row saved under nickname `n`
-    is a row of the table `nm` gives for `n`.  (Outside it: finding D02, C01/C02.) -/
+    (`nickname_to_tablename`): a row saved under a name that `nm` knows as a nickname is a row of the
+    table `nm` gives for it (outside it — one nickname on templates of two tables — the lookup by
+    ordinal can miss: D02 territory).  Nothing is required of table names any more: since fix
+    07a822a a nickname spelled like another table's name cannot disturb that table (C02/D57), and
+    no table-scope theorem below carries a naming hypothesis. -/
 abbrev WellNamedOp (nm : List (Name × Name)) (op : Op) : Prop := Proofs.C10.WellNamedOp nm op
 
 /-- Ids are saved densely: an ordinary `save_row` of table `t` carries the next id of `t`
@@ -90,19 +93,18 @@ theorem rr_nickname_scope (counters : List (Name × Nat)) (tables : List Name)
     (nickmap : List (Name × Name)) (ops : List Op) (s : St)
     (hrun : run (init counters tables nickmap) ops = .ok s)
     (hwn : ∀ op ∈ ops, WellNamedOp (init counters tables nickmap).nickToTable op)
-    (n T : Name) (hn : s.nickToTable.lookup n = some T) (h0 : ctrOf counters n = 0)
+    (n T : Name) (hn : s.nickToTable.lookup n = some T)
     (sc : Scope) (pr : PickRange) (hpr : pickRange s n sc = .ok pr)
     (draw : Nat) (hlo : pr.lo ≤ draw) (hhi : draw ≤ pr.hi) :
     ∃ r ∈ s.rows, pick s n sc draw = .ok (T, r.id) ∧ r.table = T ∧ r.nick = some n ∧
       r.ord = some draw ∧
       (sc = .current → (∃ r' ∈ s.rows, r'.nick = some n ∧ r'.since = s.epoch) → r.since = s.epoch) := by
-  obtain ⟨hi, hnm⟩ := Proofs.C10.run_invariant' (init counters tables nickmap).nickToTable
-    (fun s => s.nickToTable.lookup n = some T → Proofs.C10.NickInv s n T)
-    (fun s op s1 o hnm hp hw hs hl => by
-      have hl' : s.nickToTable.lookup n = some T := by rw [hnm, ← (Proofs.C10.step_frame hs).1.trans hnm]; exact hl
-      exact Proofs.C10.nickInv_step _ n T (by rw [← hnm]; exact hl') s op s1 o hnm (hp hl') hw hs)
-    ops _ s rfl (fun _ => Proofs.C10.nickInv_init counters tables nickmap n T h0) hwn hrun
-  have hi := hi hn
+  have hn0 : (init counters tables nickmap).nickToTable.lookup n = some T := by
+    rw [← (Proofs.C10.run_nickToTable ops _ s hrun).1]; exact hn
+  have hi := Proofs.C10.run_invariant' (init counters tables nickmap).nickToTable
+    (fun s => Proofs.C10.NickInv s n T)
+    (fun s op s1 o hp hw hs => Proofs.C10.nickInv_step _ n T hn0 s op s1 o hp hw hs)
+    ops _ s (Proofs.C10.nickInv_init counters tables nickmap n T) hwn hrun
   -- unfold the range computation
   have hwf := pick_range_wf s n sc pr hpr
   have hpr' := hpr
@@ -153,7 +155,7 @@ def NicknameIterationScope : Prop :=
     (ops : List Op) (s : St),
     run (init counters tables nickmap) ops = .ok s →
     (∀ op ∈ ops, WellNamedOp (init counters tables nickmap).nickToTable op) →
-    ∀ (n T : Name), s.nickToTable.lookup n = some T → ctrOf counters n = 0 →
+    ∀ (n T : Name), s.nickToTable.lookup n = some T →
     ∀ (pr : PickRange), pickRange s n .current = .ok pr →
     ∀ (draw : Nat), pr.lo ≤ draw → draw ≤ pr.hi →
     ∀ r ∈ s.rows, pick s n .current draw = .ok (T, r.id) → r.table = T →
@@ -172,9 +174,9 @@ theorem eq_okOr {e : Except Err St} {s : St} (d : St) (h : e = .ok s) : s = okOr
     `random_reference: n` was created by the running iteration — in every state reachable by a
     well-named op sequence, continuation re-saves included. -/
 theorem rr_nickname_iteration_scope : NicknameIterationScope := by
-  intro counters tables nickmap ops s hrun hwn n T hn h0 pr hpr draw hlo hhi r hr hpick hrt ⟨r', hr', hr'n, hr'c⟩
+  intro counters tables nickmap ops s hrun hwn n T hn pr hpr draw hlo hhi r hr hpick hrt ⟨r', hr', hr'n, hr'c⟩
   obtain ⟨r2, hr2, h1, h2, h3, h4, h5⟩ :=
-    rr_nickname_scope counters tables nickmap ops s hrun hwn n T hn h0 .current pr hpr draw hlo hhi
+    rr_nickname_scope counters tables nickmap ops s hrun hwn n T hn .current pr hpr draw hlo hhi
   have hw := h5 rfl ⟨r', hr', hr'n, hr'c.1⟩
   -- `r` need not be `r2` syntactically, but both carry the drawn id of table T: use the lookup
   have hid : r.id = r2.id := by
@@ -225,30 +227,29 @@ theorem rr_table_scope_partial (s : St) (T : Name) (hT : s.nickToTable.lookup T 
   exact ⟨r, hr, e1, e2, e3, e4⟩
 
 /-- **`ContiguousSaves` is an invariant of dense traces**: after any successful op sequence that
-    respects the naming discipline and saves ids densely, it holds for every table. -/
+    saves ids densely it holds for every name `T` — whatever nicknames the rows are saved under,
+    including nicknames spelled like `T` (no naming hypothesis since fix 07a822a). -/
 theorem contiguous_of_dense (counters : List (Name × Nat)) (tables : List Name)
     (nickmap : List (Name × Name)) (ops : List Op) (s : St)
     (hrun : run (init counters tables nickmap) ops = .ok s)
-    (hwn : ∀ op ∈ ops, WellNamedOp (init counters tables nickmap).nickToTable op)
     (hd : DenseTrace (init counters tables nickmap) ops)
-    (T : Name) (hT : s.nickToTable.lookup T = none) : ContiguousSaves s T := by
-  obtain ⟨hi, hnm⟩ := Proofs.C10.run_invariant (init counters tables nickmap).nickToTable
-    Proofs.C10.DenseOp (fun s => s.nickToTable.lookup T = none → Proofs.C10.TableInv s T)
-    (fun s op s1 o hnm hp hw hdo hs hl => by
-      have hl' : s.nickToTable.lookup T = none := by rw [hnm, ← (Proofs.C10.step_frame hs).1.trans hnm]; exact hl
-      exact Proofs.C10.tableInv_step _ T (by rw [← hnm]; exact hl') s op s1 o hnm (hp hl') hw hdo hs)
-    ops _ s rfl (fun _ => Proofs.C10.tableInv_init counters tables nickmap T) hwn hd hrun
-  have hi := hi hT
+    (T : Name) : ContiguousSaves s T := by
+  have hi := Proofs.C10.run_invariant [] Proofs.C10.DenseOp (fun s => Proofs.C10.TableInv s T)
+    (fun s op s1 o hp hw hdo hs => Proofs.C10.tableInv_step [] T rfl s op s1 o hp hw hdo hs)
+    ops _ s (Proofs.C10.tableInv_init counters tables nickmap T)
+    (fun op _ => Proofs.C10.wellNamed_nil op) hd hrun
   refine ⟨hi.cur, fun i h1 h2 => hi.fill i h2 h1, fun i h1 h2 => ?_⟩
   rcases hi.ex i h2 h1 with h | h
   · exact Or.inl ⟨h2, h⟩
   · exact Or.inr h
 
-/-- **Table scope over arbitrary dense op sequences.** -/
+/-- **Table scope over arbitrary dense op sequences** — no naming hypothesis: a table-name pick
+    names an existing row also when rows are saved under a nickname spelled like that table
+    (`object: C, nickname: A` next to `object: A`; before fix 07a822a the nickname's ordinals
+    overwrote table `A`'s counter and the pick could name a row that does not exist: C02/D57). -/
 theorem rr_table_scope_dense (counters : List (Name × Nat)) (tables : List Name)
     (nickmap : List (Name × Name)) (ops : List Op) (s : St)
     (hrun : run (init counters tables nickmap) ops = .ok s)
-    (hwn : ∀ op ∈ ops, WellNamedOp (init counters tables nickmap).nickToTable op)
     (hd : DenseTrace (init counters tables nickmap) ops)
     (T : Name) (hT : s.nickToTable.lookup T = none)
     (sc : Scope) (pr : PickRange) (hpr : pickRange s T sc = .ok pr)
@@ -256,7 +257,7 @@ theorem rr_table_scope_dense (counters : List (Name × Nat)) (tables : List Name
     pick s T sc draw = .ok (T, draw) ∧ Existing s T draw ∧
       (sc = .current → (∃ r' ∈ s.rows, r'.table = T ∧ Current s r') →
         ∃ r ∈ s.rows, r.table = T ∧ r.id = draw ∧ Current s r) :=
-  rr_table_scope_partial s T hT (contiguous_of_dense counters tables nickmap ops s hrun hwn hd T hT)
+  rr_table_scope_partial s T hT (contiguous_of_dense counters tables nickmap ops s hrun hd T)
     sc pr hpr draw hlo hhi
 
 /-- FULL STATEMENT (refuted below, D07): `rr_table_scope_dense` without `DenseTrace`. -/
@@ -288,19 +289,19 @@ theorem rr_table_scope_refuted : ¬ TableScopeFull := by
 /-! ### monotone counters (fix 9826fcb) and what follows without `DenseTrace` -/
 
 /-- **`table_counters[T]` never moves backwards**, `local_counters[T]` neither, the window bound
-    never exceeds the counter, and between two states either no `reset_locals` happened for `T`'s
-    window or the window moved past the old counter — for every well-named op sequence `ops2`
-    continuing any reachable state.  (Before the fix the D07 witness lowered the counter 3 → 1.) -/
+    never exceeds the counter, and between two states either no `reset_locals` happened or the
+    window moved past the old counter — for EVERY op sequence `ops2` continuing any reachable
+    state and every name `T`, without any naming hypothesis: only `save_row(T, …)` writes
+    `table_counters[T]` (before fix 07a822a a row saved under a *nickname* spelled `T` overwrote it
+    with the nickname ordinal — C02/D57 —, before fix 9826fcb the D07 witness lowered it 3 → 1). -/
 theorem tableCtr_monotone (counters : List (Name × Nat)) (tables : List Name)
     (nickmap : List (Name × Name)) (ops1 ops2 : List Op) (s s' : St)
     (hrun1 : run (init counters tables nickmap) ops1 = .ok s) (hrun2 : run s ops2 = .ok s')
-    (hwn1 : ∀ op ∈ ops1, WellNamedOp (init counters tables nickmap).nickToTable op)
-    (hwn2 : ∀ op ∈ ops2, WellNamedOp (init counters tables nickmap).nickToTable op)
-    (T : Name) (hT : (init counters tables nickmap).nickToTable.lookup T = none) :
+    (T : Name) :
     s.tableCtr T ≤ s'.tableCtr T ∧ s.localCtr T ≤ s'.localCtr T ∧ s'.localCtr T ≤ s'.tableCtr T ∧
       (s'.localCtr T = s.localCtr T ∨ s.tableCtr T ≤ s'.localCtr T) := by
-  have m1 := Proofs.C10.mono_run _ T hT ops1 _ s (by simp [init]) hwn1 hrun1
-  have m2 := Proofs.C10.mono_run _ T hT ops2 s s' m1.le hwn2 hrun2
+  have m1 := Proofs.C10.mono_run [] T rfl ops1 _ s (by simp [init]) (fun op _ => Proofs.C10.wellNamed_nil op) hrun1
+  have m2 := Proofs.C10.mono_run [] T rfl ops2 s s' m1.le (fun op _ => Proofs.C10.wellNamed_nil op) hrun2
   exact ⟨m2.tc, m2.lc, m2.le, m2.mv⟩
 
 /-- **Ranges handed to one `unique` context are compatible** (the D07c statement, full strength):
@@ -310,19 +311,15 @@ theorem tableCtr_monotone (counters : List (Name × Nat)) (tables : List Name)
 theorem ranges_compatible (counters : List (Name × Nat)) (tables : List Name)
     (nickmap : List (Name × Name)) (ops1 ops2 : List Op) (s s' : St)
     (hrun1 : run (init counters tables nickmap) ops1 = .ok s) (hrun2 : run s ops2 = .ok s')
-    (hwn1 : ∀ op ∈ ops1, WellNamedOp (init counters tables nickmap).nickToTable op)
-    (hwn2 : ∀ op ∈ ops2, WellNamedOp (init counters tables nickmap).nickToTable op)
-    (T : Name) (hT : (init counters tables nickmap).nickToTable.lookup T = none)
+    (T : Name) (hT : s.nickToTable.lookup T = none)
     (pr pr' : PickRange) (hpr : pickRange s T .current = .ok pr) (hpr' : pickRange s' T .current = .ok pr')
     (hw : s.localCtr T < s.tableCtr T) (hw' : s'.localCtr T < s'.tableCtr T) :
     (pr'.lo = pr.lo ∧ pr.hi ≤ pr'.hi) ∨ pr.hi + 1 ≤ pr'.lo := by
-  obtain ⟨m1, m2, m3, m4⟩ := tableCtr_monotone counters tables nickmap ops1 ops2 s s' hrun1 hrun2 hwn1 hwn2 T hT
-  have hnm : s.nickToTable = (init counters tables nickmap).nickToTable :=
-    (Proofs.C10.run_invariant' _ (fun _ => True) (fun _ _ _ _ _ _ _ _ => trivial) ops1 _ s rfl trivial hwn1 hrun1).2
-  have hnm' : s'.nickToTable = (init counters tables nickmap).nickToTable :=
-    (Proofs.C10.run_invariant' _ (fun _ => True) (fun _ _ _ _ _ _ _ _ => trivial) ops2 s s' hnm trivial hwn2 hrun2).2
-  rw [Proofs.C10.pickRange_table_window s T (by rw [hnm]; exact hT) hw] at hpr
-  rw [Proofs.C10.pickRange_table_window s' T (by rw [hnm']; exact hT) hw'] at hpr'
+  obtain ⟨m1, m2, m3, m4⟩ := tableCtr_monotone counters tables nickmap ops1 ops2 s s' hrun1 hrun2 T
+  have hT' : s'.nickToTable.lookup T = none := by
+    rw [(Proofs.C10.run_nickToTable ops2 s s' hrun2).1]; exact hT
+  rw [Proofs.C10.pickRange_table_window s T hT hw] at hpr
+  rw [Proofs.C10.pickRange_table_window s' T hT' hw'] at hpr'
   simp only [Except.ok.injEq] at hpr hpr'
   subst hpr hpr'
   simp only
@@ -330,7 +327,7 @@ theorem ranges_compatible (counters : List (Name × Nat)) (tables : List Name)
   · left; omega
   · right; omega
 
-/-- **Table scope without `DenseTrace`** (the D07b statement, full strength): after any well-named op
+/-- **Table scope without `DenseTrace`** (the D07b statement, full strength): after ANY op
     sequence, when the window of `T` is non-empty (`local_counters[T] < table_counters[T]`), the
     drawn id is above every id of an earlier run, and every *saved* row carrying it was saved by the
     running iteration.  So the result is a current row or an id not saved yet (reserved ahead: D07)
@@ -338,19 +335,15 @@ theorem ranges_compatible (counters : List (Name × Nat)) (tables : List Name)
 theorem rr_table_scope_no_earlier_row (counters : List (Name × Nat)) (tables : List Name)
     (nickmap : List (Name × Name)) (ops : List Op) (s : St)
     (hrun : run (init counters tables nickmap) ops = .ok s)
-    (hwn : ∀ op ∈ ops, WellNamedOp (init counters tables nickmap).nickToTable op)
     (T : Name) (hT : s.nickToTable.lookup T = none) (hw : s.localCtr T < s.tableCtr T)
     (pr : PickRange) (hpr : pickRange s T .current = .ok pr)
     (draw : Nat) (hlo : pr.lo ≤ draw) (hhi : draw ≤ pr.hi) :
     pick s T .current draw = .ok (T, draw) ∧ s.prior T < draw ∧
       ∀ r ∈ s.rows, r.table = T → r.id = draw → Current s r := by
-  obtain ⟨hi, hnm⟩ := Proofs.C10.run_invariant' (init counters tables nickmap).nickToTable
-    (fun s => s.nickToTable.lookup T = none → Proofs.C10.OrdInv s T)
-    (fun s op s1 o hnm hp hw hs hl => by
-      have hl' : s.nickToTable.lookup T = none := by rw [hnm, ← (Proofs.C10.step_frame hs).1.trans hnm]; exact hl
-      exact Proofs.C10.ordInv_step _ T (by rw [← hnm]; exact hl') s op s1 o hnm (hp hl') hw hs)
-    ops _ s rfl (fun _ => Proofs.C10.ordInv_init counters tables nickmap T) hwn hrun
-  have hi := hi hT
+  have hi := Proofs.C10.run_invariant' [] (fun s => Proofs.C10.OrdInv s T)
+    (fun s op s1 o hp hw hs => Proofs.C10.ordInv_step [] T rfl s op s1 o hp hw hs)
+    ops _ s (Proofs.C10.ordInv_init counters tables nickmap T)
+    (fun op _ => Proofs.C10.wellNamed_nil op) hrun
   have hres := resaved_rows_not_current counters tables nickmap ops s hrun
   have hpr' := hpr
   rw [Proofs.C10.pickRange_table_window s T hT hw] at hpr
@@ -378,22 +371,17 @@ theorem rr_table_scope_no_earlier_row (counters : List (Name × Nat)) (tables : 
 theorem current_rows_in_range (counters : List (Name × Nat)) (tables : List Name)
     (nickmap : List (Name × Name)) (ops : List Op) (s : St)
     (hrun : run (init counters tables nickmap) ops = .ok s)
-    (hwn : ∀ op ∈ ops, WellNamedOp (init counters tables nickmap).nickToTable op)
-    (hf : FreshTrace (init counters tables nickmap) ops)
-    (T : Name) (hT : s.nickToTable.lookup T = none) :
+    (hf : FreshTrace (init counters tables nickmap) ops) (T : Name) :
     ∀ r ∈ s.rows, r.table = T → Current s r → s.localCtr T < r.id ∧ r.id ≤ s.tableCtr T := by
-  obtain ⟨hi, -⟩ := Proofs.C10.run_invariant (init counters tables nickmap).nickToTable
-    Proofs.C10.FreshOp (fun s => Proofs.C10.FreshInv s T)
-    (fun s op s1 o hnm hp hw hc hs => Proofs.C10.freshInv_step _ T s op s1 o hnm hp hw hc hs)
-    ops _ s rfl ⟨by simp [init], by simp [init]⟩ hwn hf hrun
-  obtain ⟨ho, -⟩ := Proofs.C10.run_invariant' (init counters tables nickmap).nickToTable
-    (fun s => s.nickToTable.lookup T = none → Proofs.C10.OrdInv s T)
-    (fun s op s1 o hnm hp hw hs hl => by
-      have hl' : s.nickToTable.lookup T = none := by rw [hnm, ← (Proofs.C10.step_frame hs).1.trans hnm]; exact hl
-      exact Proofs.C10.ordInv_step _ T (by rw [← hnm]; exact hl') s op s1 o hnm (hp hl') hw hs)
-    ops _ s rfl (fun _ => Proofs.C10.ordInv_init counters tables nickmap T) hwn hrun
+  have hi := Proofs.C10.run_invariant [] Proofs.C10.FreshOp (fun s => Proofs.C10.FreshInv s T)
+    (fun s op s1 o hp hw hc hs => Proofs.C10.freshInv_step [] T s op s1 o hp hw hc hs)
+    ops _ s ⟨by simp [init], by simp [init]⟩ (fun op _ => Proofs.C10.wellNamed_nil op) hf hrun
+  have ho := Proofs.C10.run_invariant' [] (fun s => Proofs.C10.OrdInv s T)
+    (fun s op s1 o hp hw hs => Proofs.C10.ordInv_step [] T rfl s op s1 o hp hw hs)
+    ops _ s (Proofs.C10.ordInv_init counters tables nickmap T)
+    (fun op _ => Proofs.C10.wellNamed_nil op) hrun
   intro r hr hrt hc
-  exact ⟨hi.2 r hr hrt hc.1 hc.2, (ho hT).all r hr hrt⟩
+  exact ⟨hi.2 r hr hrt hc.1 hc.2, ho.all r hr hrt⟩
 
 /-- **Table scope under `FreshTrace` only**: if the running iteration created a row of `T`, the
     result is never a row of an earlier iteration or run (it is a current row, or — D07 — an id
@@ -401,7 +389,6 @@ theorem current_rows_in_range (counters : List (Name × Nat)) (tables : List Nam
 theorem rr_table_scope_fresh (counters : List (Name × Nat)) (tables : List Name)
     (nickmap : List (Name × Name)) (ops : List Op) (s : St)
     (hrun : run (init counters tables nickmap) ops = .ok s)
-    (hwn : ∀ op ∈ ops, WellNamedOp (init counters tables nickmap).nickToTable op)
     (hf : FreshTrace (init counters tables nickmap) ops)
     (T : Name) (hT : s.nickToTable.lookup T = none)
     (hcur : ∃ r' ∈ s.rows, r'.table = T ∧ Current s r')
@@ -410,8 +397,16 @@ theorem rr_table_scope_fresh (counters : List (Name × Nat)) (tables : List Name
     pick s T .current draw = .ok (T, draw) ∧ s.prior T < draw ∧
       ∀ r ∈ s.rows, r.table = T → r.id = draw → Current s r := by
   obtain ⟨r', hr', hr't, hr'c⟩ := hcur
-  have := current_rows_in_range counters tables nickmap ops s hrun hwn hf T hT r' hr' hr't hr'c
-  exact rr_table_scope_no_earlier_row counters tables nickmap ops s hrun hwn T hT (by omega) pr hpr draw hlo hhi
+  have := current_rows_in_range counters tables nickmap ops s hrun hf T r' hr' hr't hr'c
+  exact rr_table_scope_no_earlier_row counters tables nickmap ops s hrun T hT (by omega) pr hpr draw hlo hhi
+
+/-- The D57 scenario (`object: A` and `object: C, nickname: A`; the table name wins in
+    `nicknames_and_tables`, so `random_reference: A` is a TABLE pick): three rows of `C` saved under
+    nickname `A` leave table `A`'s counter at 1, the range handed to the randomizer is `[1, 1]`
+    (before fix 07a822a: `[1, 3]`, naming the non-existent rows `A(2)`, `A(3)`). -/
+def d57Init : St := init [] ["A", "C"] [("A", "A"), ("C", "C")]
+def d57Ops : List Op := [.resave [], .save "A" none 1, .save "C" (some "A") 1, .save "C" (some "A") 2,
+  .save "C" (some "A") 3]
 
 /-! ### unique -/
 
@@ -775,6 +770,11 @@ example : pick (okOr d07Init (run d07Init [.save "T" none 1, .save "T" (some "n"
 /-- the D48 scenario: `J(1)` known by nickname `j`, `Q(1)` known by its table name — both re-saved -/
 example : resaveRows [("j", "J", 1)] [("J", 1), ("Q", 1), ("Z", 1)] ["J", "Q"]
     = [("J", some "j", 1), ("Q", none, 1)] := by decide
+example : DenseTrace d57Init d57Ops := by decide
+example : pickRange (okOr d57Init (run d57Init d57Ops)) "A" .current
+    = .ok { nick := none, table := "A", lo := 1, hi := 1 } := by decide
+example : (okOr d57Init (run d57Init d57Ops)).nickCtr "A" = 3 ∧
+    (okOr d57Init (run d57Init d57Ops)).tableCtr "A" = 1 := by decide
 example : ExtReqs 1 1 [(1, 2), (1, 2), (1, 4)] := by simp [ExtReqs]
 example : CompatReqs 1 3 [(1, 3), (1, 5), (6, 8), (6, 9), (10, 10)] := by simp [CompatReqs]
 example : changes none [some 1, some 1, some 2, none, none] = [true, false, true, true, false] := by decide
